@@ -256,6 +256,15 @@ class Prop(SeqProp):
             exp = sorted(([i], sc[i]) for i in range(n) if sc[i] == min(sc))
             if sorted(mins) != exp:
                 return f"{n} elements: min-combination search over the whole range gives {mins[:5]}, expected the least singletons {exp[:5]}"
+            # intervals that hold nothing because they end before the least sum (empty, inverted): the answer is [] at once
+            for lo, hi in ((10 ** 6, 0), (min(sc), min(sc)), (3 * n * 50, min(sc)), (0, min(sc))):
+                try:
+                    r_ = core.call_with_alarm(lambda: g.min_combinations_in_interval_iter_sorted(list(range(n)), sc, lo, hi), 20.0)
+                except core.Timeout:
+                    return (f"{n} elements: min-combination search in [{lo}, {hi}) — an interval that ends at or below the least "
+                            f"score {min(sc)} — did not return within 20 s")
+                if r_ != []:
+                    return f"{n} elements: min-combination search in [{lo}, {hi}) gives {r_[:5]}, the interval holds no sum"
             return None
         sc = desc["scores"]
         kf = key_fn(desc["key"], sc)
